@@ -102,6 +102,11 @@ func runC11(c *eng.Ctx) {
 			okF := eng.DominatedBy(f, r, []eng.Site{fil}, nil)
 			c.Check(okM && okF, fmt.Sprintf("result-has-both[%d]", i), r, f, "the result of a family read contains the memory result sets and the file result sets", "")
 		}
+		// memory is read BEFORE the file snapshot is picked: a flush moves points from the immutable memory database into a
+		// newer file version and then drops the memory database; the other order can see the flushed points in neither place
+		_, late := eng.Reaches(f, fil.Instr, []eng.Site{mem}, nil)
+		_, before := eng.Reaches(f, mem.Instr, []eng.Site{fil}, nil)
+		c.Check(!late && before, "memory-before-files", fil.Instr, f, "the memory databases are filtered before the file snapshot is taken", "fileFilter can run before memoryFilter")
 		for _, s := range []eng.Site{mem, fil} {
 			nilE, _ := eng.ErrCheckEdges(f, s.Instr.(ssa.Value))
 			c.Check(len(nilE) > 0, "error-propagates:"+shortInstr(p, s.Instr), s.Instr, f, "an error of either part fails the read (no silent partial answer)", "")
@@ -163,6 +168,43 @@ func runC11(c *eng.Ctx) {
 		nf := c.One(ff, eng.CallTo("var:tsdb.newFilterFunc"), "newFilterFunc(start, snapShot, readers)")
 		snap := c.One(ff, invokeOn(".family", "GetSnapshot"), "family.GetSnapshot()")
 		c.Check(eng.SameValue(eng.CallArgs(nf.Instr.(*ssa.Call))[1], snap.Instr.(ssa.Value)) || eng.DerivesFromCall(eng.CallArgs(nf.Instr.(*ssa.Call))[1], snap.Instr.(ssa.Value), 0), "filter-owns-that-snapshot", nf.Instr, ff, "the file filter is given the snapshot its readers come from", "")
+	})
+
+	// ---- 1b. flush writes one entry per field for every series, in field order -----------------------------------------------------------
+	c.Rule("PASS", "tsdb/memdb.memoryDatabase.FlushFamilyTo{one entry per field}", func() {
+		f := c.Fn("tsdb/memdb.memoryDatabase.FlushFamilyTo")
+		var body *ssa.Function
+		for _, cl := range eng.Closures(f) {
+			if len(p.Sites(cl, eng.CallTo("tsdb/memdb.flushFieldTo"))) > 0 {
+				body = cl
+			}
+		}
+		if body == nil {
+			c.Undecided("series callback of FlushFamilyTo not found")
+		}
+		gp := c.One(body, invokeOn("", "GetPage"), "buf.GetPage(memSeriesID)")
+		data := c.Some(body, eng.CallTo("tsdb/memdb.flushFieldTo"), "flushFieldTo(...)")
+		pad := c.Some(body, invokeOn("flusher", "FlushField"), "flusher.FlushField(nil)")
+		blocked := append(append([]eng.Site{}, data...), pad...)
+		// from the page lookup of one field to the lookup of the next field (or the end of the series) an entry is always written
+		var next []eng.Site
+		next = append(next, gp)
+		for _, r := range eng.SuccessReturns(body) {
+			next = append(next, eng.Site{Fn: body, Instr: r})
+		}
+		at, skip := eng.Reaches(body, gp.Instr, next, blocked)
+		c.Check(!skip, "every-field-gets-an-entry", at, body,
+			"for every field of the metric either its data or an empty entry is written for the series (entries are positional: a skipped field shifts the later ones onto its id)", "the next field / the end of the series is reachable without writing an entry")
+		for i, d := range pad {
+			a := eng.CallArgs(d.Instr.(*ssa.Call))[0]
+			c.Check(eng.IsNilConst(a), fmt.Sprintf("padding-is-empty[%d]", i), d.Instr, body, "the padding entry is empty", "pads with "+p.Desc(a))
+		}
+		// the data path writes the looked-up page under the field's own position
+		for i, d := range data {
+			a := eng.CallArgs(d.Instr.(*ssa.Call))
+			okPage := eng.DependsOn(a[2], func(x ssa.Value) bool { return x == gp.Instr.(ssa.Value) })
+			c.Check(okPage, fmt.Sprintf("data-is-the-fields-page[%d]", i), d.Instr, body, "the data written for a field is the page looked up for it", "writes "+p.Desc(a[2]))
+		}
 	})
 
 	// ---- 2. writers vs flush -----------------------------------------------------------------------------------------------------
